@@ -1032,9 +1032,18 @@ W17 = [_world("W17-very-long-names", _W17_SDL, _W17_Q),
 # the generated files may not depend on what HOME / GRAPHQL_SOURCES happen to be in the environment
 W18 = dict(copy.deepcopy(W3), id="W18-sources-in-directories-named-tilde-and-dollar", literal_odd_dirs=True)
 
+# a configuration that re-declares built-in scalar names (legal; the method arguments honour it)
+W19 = dict(copy.deepcopy(W4), id="W19-builtin-scalar-names-configured")
+W19["config"] = dict(W19["config"], scalars={"ID": {"type": "str"}, "Float": {"type": "float"}, "Int": {"type": "int"}})
+
+# projects that exercise process-level machinery (plugins, configured scalars, custom operations, the other strategy): used as the
+# "earlier generation in the same interpreter" of other projects
+STATEFUL_NEIGHBOURS = ["W19-builtin-scalar-names-configured", "W5-upload-scalars-mixin", "W10-plugins-5", "W9-custom-operations",
+                       "W11-graphqlschema-py", "W14e-case-only-types-forward-refs", "W13b-used-enums-only-shorter-results"]
+
 
 def all_worlds() -> List[dict]:
-    return [W1, W2, W2b, W3, W4, W5, W7, W8, W8s, W9, W9k, W15] + W10 + W11 + W12 + W13 + W14 + W16 + W17 + [W18]
+    return [W1, W2, W2b, W3, W4, W5, W7, W8, W8s, W9, W9k, W15] + W10 + W11 + W12 + W13 + W14 + W16 + W17 + [W18, W19]
 
 
 def by_id(wid: str) -> dict:
